@@ -613,6 +613,9 @@ func (t *State) RollBackUnconfirmedTx() (map[string]bool, []*pb.Transaction, err
 	if loadErr != nil {
 		return nil, nil, loadErr
 	}
+	// the order in which the pool may be executed again (dependencies first, and the reader of
+	// a key version before the transaction that supersedes it): used for the recovery below
+	replayOrder, _ := t.tx.GetUnconfirmedTx(false)
 
 	// 回滚未确认交易
 	undoDone := make(map[string]bool)
@@ -638,6 +641,23 @@ func (t *State) RollBackUnconfirmedTx() (map[string]bool, []*pb.Transaction, err
 	for _, tx := range undoList {
 		t.tx.UnconfirmTxInMem.Delete(string(tx.Txid))
 		t.log.Trace("delete from unconfirm tx memory", "txid", utils.F(tx.Txid))
+	}
+	// recoverUnconfirmedTx replays the returned list from its end: hand it the transactions in
+	// reverse execution order. The undo order only respects dependencies, so replaying it
+	// backwards could run an overwriter before a reader of the same key version, and the
+	// reader, then stale, was dropped from the pool by every walk.
+	if len(replayOrder) == len(undoList) {
+		ordered := make([]*pb.Transaction, 0, len(replayOrder))
+		for i := len(replayOrder) - 1; i >= 0; i-- {
+			if !undoDone[string(replayOrder[i].Txid)] {
+				ordered = nil
+				break
+			}
+			ordered = append(ordered, replayOrder[i])
+		}
+		if ordered != nil {
+			return undoDone, ordered, nil
+		}
 	}
 	return undoDone, undoList, nil
 }
